@@ -84,18 +84,51 @@ def check_tree(case):
             lines = text.split("\n")
             for i in range(len(lines)):
                 texts.append(("comment", "\n".join(lines[:i] + [lines[i] + "  # a comment < L > <"] + lines[i + 1:])))
+                if i + 1 < len(lines):
+                    # the same comment, but the line break that ends it comes one line later: the comment swallows the next line.
+                    # Read right after the text above (equal up to white space), it is another definition - or none at all.
+                    texts.append(("comment-swallows-line", "\n".join(lines[:i] + [lines[i] + "  # a comment < L > < " + lines[i + 1].strip()] + lines[i + 2:])))
         for tag, txt in texts:
             n += 1
+            want_here = want
+            if tag == "comment-swallows-line":
+                rest = parse_text(txt, want_status=True)
+                if rest is None:
+                    continue  # text after the first complete item, or not an item at all: nothing is documented about it
+                if rest == "unclosed":  # the text ends inside an item
+                    try:
+                        var = vfunctions.generate(txt)
+                    except Exception:  # noqa: BLE001
+                        continue
+                    out.append(("C19|broken-definition-accepted|comment-swallows-closing-bracket", {"case": case, "text": txt, "result": repr(observe(var))[:200]}))
+                    continue
+                if not _documented_form(rest):
+                    continue
+                want_here = sfdl.shape(rest)
             try:
                 var = vfunctions.generate(txt)
                 got = observe(var)
             except Exception as exc:  # noqa: BLE001
                 out.append((f"C19|valid-definition-rejected|{tag.rstrip('0123')}|{classify(tree)}", {"case": case, "text": txt, "error": repr(exc)[:300]}))
                 continue
-            diff = first_difference(want, got)
+            diff = first_difference(want_here, got)
             if diff:
                 out.append((f"C19|shape-differs|{abstract_path(diff)}|{classify(tree)}", {"case": case, "text": txt, "want": want, "got": got}))
     return {"v": out, "nt": tree[0] == "list", "cnt": {"texts": n}}
+
+
+def _documented_form(tree, top=True):
+    """The forms the enumeration itself generates: no empty list, no unnamed list around a single named list, distinct keys."""
+    if tree[0] == "item":
+        return True
+    _l, name, children = tree
+    if not children:
+        return False
+    if name is None and len(children) == 1 and children[0][0] == "list" and children[0][1] is not None:
+        return False
+    if top and not sfdl.keys_distinct(tree):
+        return False
+    return all(_documented_form(c, False) for c in children)
 
 
 def check_mutations(case):
@@ -145,7 +178,7 @@ def check_shipped(case):
     return {"v": [], "nt": True}
 
 
-def parse_text(text):
+def parse_text(text, want_status=False):
     """Reference parse of a shipped definition text -> tree (comments stripped)."""
     lines = [ln.split("#", 1)[0] for ln in text.splitlines()]
     toks = " ".join(lines).replace("<", " < ").replace(">", " > ").split()
@@ -176,7 +209,9 @@ def parse_text(text):
     try:
         t = item()
         return t if pos == len(toks) else None
-    except (ValueError, IndexError):
+    except IndexError:
+        return "unclosed" if want_status else None
+    except ValueError:
         return None
 
 
